@@ -8,7 +8,7 @@
 //   - TestVerifier presents generated certificate-chain / hash-list pairs to the real
 //     verifier and compares with the reference predicate of the statement.
 //   - TestE2E* (thorough tier) dial a real listener over loopback UDP.
-//   - TestWitness_* are the deterministic witnesses of the two suspected defects.
+//   - TestWitness_* are the deterministic witnesses of the two defects this check found.
 package c18
 
 import (
@@ -20,7 +20,6 @@ import (
 	"crypto/x509"
 	"encoding/binary"
 	"fmt"
-	"os"
 	"sort"
 	"strings"
 	"testing"
@@ -38,7 +37,6 @@ import (
 
 	"verif/internal/hx"
 	"verif/internal/keys"
-	"verif/internal/kf"
 	"verif/internal/stats"
 )
 
@@ -52,7 +50,7 @@ const (
 	maxLifetime = 14 * 24 * time.Hour
 )
 
-// Identifiers of the two suspected defects (see TestWitness_*).
+// Identifiers of the two defects this check found (see TestWitness_*).
 const (
 	kfChainLast = "C18-chain-last-cert"
 	kfRSAPSS    = "C18-rsa-pss"
@@ -70,26 +68,10 @@ func TestMain(m *testing.M) {
 			"Verifier: generated (chain of 0/1/2 certs, hash list, verification instant) against the reference predicate; non-trivial = at most one conjunct of the predicate fails; distinct = class tuple.",
 		"crypto/x509 parsing and crypto/sha256 are trusted (used by the oracle)",
 		"the clock-skew allowance is the exported constant (1h); the 14-day bound is taken from the statement",
-		"for chains of two certificates the 'server certificate' is rawCerts[0] (what crypto/tls authenticates the handshake with); only the 'only if' direction is asserted there",
-		"certificates whose key is RSA but whose issuer signature is not (or vice versa) are ambiguous under 'not RSA': either verdict is accepted",
+		"the 'server certificate' of a chain is rawCerts[0] (what crypto/tls authenticates the handshake with); 'RSA' = RSA public key or any RSA (PKCS#1 v1.5 / PSS) signature",
 		"the Noise early-data confirmation is exercised only by the thorough-tier loopback cases",
 	)
 	hx.Main(m)
-}
-
-// known reports whether a suspected defect is to be treated as a listed known finding.
-// VERIF_ASSUME_KNOWN (comma separated ids) is a development aid used while an entry is
-// not yet in known_findings.json; it is never set by the driver.
-func known(id string) bool {
-	if kf.Known(id) {
-		return true
-	}
-	for _, s := range strings.Split(os.Getenv("VERIF_ASSUME_KNOWN"), ",") {
-		if strings.TrimSpace(s) == id {
-			return true
-		}
-	}
-	return false
 }
 
 // ---------------------------------------------------------------------------
@@ -401,6 +383,7 @@ type mgr struct {
 	created time.Time
 	lastSum [32]byte
 	rolled  bool
+	probe   bool // throw-away manager used to learn the boundaries: judged on its own only
 }
 
 type world struct {
@@ -426,13 +409,21 @@ type world struct {
 
 func (w *world) label(l string) { w.labels[l] = true }
 
+// newMgr creates a manager at the current instant and judges it at once, BEFORE its
+// timer goroutine had a chance to run: a listener can be asked for its certificate as
+// soon as the constructor returns. (With the unchanged code the first timer is strictly
+// in the future, so nothing races with this sample.)
 func (w *world) newMgr(name string) *mgr {
 	h, err := wt.VerifNewCertManager(w.key, clock.New())
 	if err != nil {
 		w.rt.Fatalf("%s: newCertManager at %s: %v", name, time.Now().UTC().Format(time.RFC3339Nano), err)
 	}
-	m := &mgr{name: name, h: h, created: time.Now()}
+	m := &mgr{name: name, h: h, created: time.Now(), probe: name == "probe"}
 	w.open = append(w.open, m)
+	if name == "A" {
+		w.a = m
+	}
+	w.sample(m, "right after creation")
 	return m
 }
 
@@ -505,6 +496,15 @@ func (w *world) sample(m *mgr, why string) {
 				w.exactRot++
 			}
 		}
+	}
+
+	if m.probe {
+		ser := decodeSerialized(rt, at, m.h.SerializedCertHashes())
+		addr := decodeAddr(rt, at, m.h.AddrComponent())
+		if !ser.hasSHA256(sum) || !addr.hasSHA256(sum) {
+			rt.Fatalf("%s: advertisements %v / %v lack the hash %x of the served certificate", at, ser, addr, sum[:6])
+		}
+		return
 	}
 
 	// period bookkeeping: A runs without interruption and is sampled at every rotation
@@ -629,7 +629,7 @@ func TestTimeline(t *testing.T) {
 			}
 			time.Sleep(start.Sub(t0))
 
-			w.a = w.newMgr("A")
+			w.newMgr("A")
 			if spec.BAtStart {
 				w.b = w.newMgr("B0")
 			}
